@@ -386,8 +386,12 @@ def replay(ctx, path):
     if rp.get("layer") == "L1":
         ctx.tier = rp["tier"]
         ctx.seed = rp["seed"]
-        doc = run_lv(ctx, rp["profile"], ["--only-case", str(rp["case"])] + rp.get("extra_args", []),
-                     prop=rp["property"])
+        if rp["profile"] == "miri":
+            import layers
+            doc = layers.miri_single(ctx, rp["property"], ["--only-case", str(rp["case"])] + rp.get("extra_args", []))
+        else:
+            doc = run_lv(ctx, rp["profile"], ["--only-case", str(rp["case"])] + rp.get("extra_args", []),
+                         prop=rp["property"])
         ok = True
         for v in doc["violations"]:
             ok = False
